@@ -39,7 +39,9 @@ def plan(tier, seed, budget):
 MUTATIONS = ["none", "none", "undefined_on_path", "return_in_branch", "return_in_loop", "augassign", "del", "try", "with", "comprehension",
              "chained_compare", "multi_target", "break_not_last", "bad_loop_bound", "arity_mismatch", "loop_var_after_loop", "while_non_name",
              "graph_scan", "graph_scan_msdomain", "graph_capture_modified", "graph_capture_rebound_inside", "call_same_name_two_domains",
-             "return_in_static_if_in_branch", "return_in_static_if_in_loop", "undefined_on_path_with_global"]
+             "return_in_static_if_in_branch", "return_in_static_if_in_loop", "undefined_on_path_with_global", "graph_scan_returns_outer"]
+# graph_scan_returns_outer: the nested function returns, as its new state, a value computed by the ENCLOSING function (accepted: the subgraph
+# output must then be produced inside the subgraph, e.g. through an Identity).
 # return_in_static_if_*: the `return` sits under `if SCRIPT_TIME_CONSTANT:` (resolved when the script is translated) inside a dynamic branch / loop
 # body: still a return inside control flow.  undefined_on_path_with_global: the variable that is undefined on one path has the name of a module
 # global that could be converted to a tensor (the Python reading raises UnboundLocalError on that path; a graph that silently reads the global
@@ -150,7 +152,10 @@ def mutate(prog, kind, draw):
                  "@graph()",
                  f"def sc_body(sc_acc: {scriptgen._ann(fp[0][1], fp[0][2] - 1)}, sc_x: {scriptgen._ann(fp[0][1], fp[0][2] - 1)}) -> ({scriptgen._ann(fp[0][1], fp[0][2] - 1)}, {scriptgen._ann(fp[0][1], fp[0][2] - 1)}):",  # (annotated, as in the documentation's Scan examples)
                  f"    sc_y = {inner}"]
-        if kind == "graph_capture_rebound_inside":
+        if kind == "graph_scan_returns_outer":
+            lines.insert(0, f"sc_o = op.ReduceSum({X} * 0.0, [0], keepdims=0)")
+            lines.append("    return sc_o, op.Add(sc_acc, sc_y)")
+        elif kind == "graph_capture_rebound_inside":
             lines.append("    sc_k = op.Add(sc_x, sc_y)")
             lines.append("    return op.Add(sc_acc, sc_k), sc_y")
         else:
